@@ -21,13 +21,13 @@ CFG = dict(
          "sessions of 1-4 lines from the command grammar (commands, topN, '>' redirection, -ignore, assignments, shortcuts, comments, noise) "
          "+ a closing 'top 3', report requests recorded; (6) the same with real report generation over profiles with odd strings/ids/"
          "addresses/build ids/labels/units; (7) web: 1-5 requests over all handler paths + closing /top via driver.PProf -http and a plugin "
-         "HTTPServer; (8) command lines; (9) -symbolize mode texts from a grammar through Symbolizer.Symbolize (model-compared) and through driver.PProf with the real symbolizer; (10) every report under mean on profiles whose first value column holds zeros (session, CLI, web). (11) option x output-format matrix: six shaped profiles (two-caller diamond, recursion/inlining/labels, wide, negative values, deep chain, unsymbolized) x settings derived from the config field table alone and combined with call_tree/trim/nodecount/nodefraction x EVERY report command, as interactive sessions (all commands in one session), command lines and web requests. All streams run in child processes under watchdogs (a call that does not return = observable hang). distinct = sha256 of the input term; non-trivial = at least one generated line/request/digit/"
+         "HTTPServer; (8) command lines; (9) -symbolize mode texts from a grammar through Symbolizer.Symbolize (model-compared) and through driver.PProf with the real symbolizer; (10) every report under mean on profiles whose first value column holds zeros (session, CLI, web). (12) locateBinaries candidates compared BY NAME with a lexical filepath model, for build ids / files made of atoms whose length or shape changes under normalisation (Unicode white space, case mappings that change the UTF-8 length, invalid UTF-8, NUL, path metacharacters): every atom, every pair, random 3-5 atom strings; the same atoms feed all string fields of explored profiles and option values. (11) option x output-format matrix: six shaped profiles (two-caller diamond, recursion/inlining/labels, wide, negative values, deep chain, unsymbolized) x settings derived from the config field table alone and combined with call_tree/trim/nodecount/nodefraction x EVERY report command, as interactive sessions (all commands in one session), command lines and web requests. All streams run in child processes under watchdogs (a call that does not return = observable hang). distinct = sha256 of the input term; non-trivial = at least one generated line/request/digit/"
          "mapping/non-empty value/flag",
     spec_what="pprof panicked, hung, answered with an unexpected HTTP status, or left the interactive/web session unusable",
     trusted_base=["translator gen-c09calltree (go/parser scan of the TrimTree call guards and the graph.Options CallTree field; fails closed); assumption: a graph built with CallTree has at most one in-edge per node",
                   "translators gen-c09tables (dumps configFields/pprofCommands/configHelp via reflection-free export shim) and gen-unittable",
                   "export shim harness/overlay/internal/driver/zz_verif_c09.go (add-only; swaps generateReportWrapper, a test hook of the package)",
-                  "oracles shipped in cases: strconv.ParseFloat results, net/url query parsing; regexp, filepath.Join/Base/Dir/Glob not modelled",
+                  "oracles shipped in cases: strconv.ParseFloat results, net/url query parsing; regexp and filepath.Glob not modelled; filepath.Clean/Join/Base/Dir modelled lexically for Unix (tied by the locate cases)",
                   "scripted plugin.UI / FlagSet (Go flag package) / Fetcher / ObjTool / Writer / HTTPServer; PATH emptied so no external program starts",
                   "strings.TrimSpace/Fields/ToLower modelled for ASCII only"],
     assumptions=["a profile reaching interactive()/the web UI has at least one sample type (fetchProfiles rejects others; explored)",
